@@ -2,7 +2,7 @@
     This file contains only the pinned statements; proofs live in ParseProofs/Spelling.v. *)
 From ClapModel Require Import Base.Bytes Base.Machine Base.Utf8.
 From ClapModel Require Import Parse.Cmd Parse.Build Parse.Valid Parse.Matcher Parse.Errors Parse.Validator Parse.Parser.
-From ClapModel Require Import ParseProofs.Spelling ParseProofs.SpellingLine.
+From ClapModel Require Import ParseProofs.Spelling ParseProofs.Dispatch ParseProofs.SpellingLine.
 From Coq Require Import ZArith List.
 Import ListNotations.
 Open Scope N_scope.
@@ -257,6 +257,166 @@ Theorem C08_long_space_vs_eq_line : forall c0 bin l v a r tokA tokB rest x0,
   parse_top c0 (bin :: tokB :: v :: rest) = parse_top c0 (bin :: tokA :: rest).
 Proof. exact long_space_vs_eq_top. Qed.
 Print Assumptions C08_long_space_vs_eq_line.
+
+(** [-o v] = [-ov] = [-o=v] *)
+Theorem C08_short_site_meaning : forall c ls tok, short_site c ls tok <->
+  l_trailing ls = false /\ l_pst ls = PSValuesDone /\
+  match get_pos c (l_pos ls) with
+  | Some a => a_negnum a = false /\ (a_hyphen a && negb (a_last a)) = false
+  | None => True
+  end /\ possible_subcommand c tok (l_vaf ls) = None.
+Proof. exact (fun c ls tok => iff_refl _). Qed.
+Print Assumptions C08_short_site_meaning.
+
+Theorem C08_short_space_vs_att : forall c ch a r b t rA rB tokA tokB rest ls st x0,
+  is_set s_sub_precedence c = false ->
+  short_site c ls tokA -> short_site c ls tokB ->
+  to_short tokA = Some rA -> sf_next rA = Some (inl ch, b :: t) -> b <> 61 ->
+  to_short tokB = Some rB -> sf_next rB = Some (inl ch, []) ->
+  get_short c ch = Some a -> single_opt c a r -> plain_value a (b :: t) -> fs_skip st = 0 ->
+  react c (Some IShort) SCmdLine a [b :: t] None st = ROk x0 ->
+  res_rel c (parse_loop c (tokB :: (b :: t) :: rest) ls st) (parse_loop c (tokA :: rest) ls st).
+Proof. exact short_space_vs_att. Qed.
+Print Assumptions C08_short_space_vs_att.
+
+Theorem C08_short_eq_vs_att : forall c ch a b t rA rC tokA tokC rest ls st,
+  short_site c ls tokA -> short_site c ls tokC ->
+  to_short tokA = Some rA -> sf_next rA = Some (inl ch, b :: t) -> b <> 61 ->
+  to_short tokC = Some rC -> sf_next rC = Some (inl ch, 61 :: b :: t) ->
+  get_short c ch = Some a -> a_takes_value a = true -> a_req_eq a = false -> fs_skip st = 0 ->
+  parse_loop c (tokC :: rest) ls st = parse_loop c (tokA :: rest) ls st.
+Proof. exact short_eq_vs_att. Qed.
+Print Assumptions C08_short_eq_vs_att.
+
+Theorem C08_short_space_vs_att_line : forall c0 bin,
+  is_set s_no_binary_name c0 = false -> is_set s_ignore_errors (build_self (top_cmd c0 bin)) = false ->
+  forall ch a r b t rA rB tokA tokB rest x0,
+  let c := build_self (top_cmd c0 bin) in
+  is_set s_sub_precedence c = false ->
+  short_site c ls_top tokA -> short_site c ls_top tokB ->
+  to_short tokA = Some rA -> sf_next rA = Some (inl ch, b :: t) -> b <> 61 ->
+  to_short tokB = Some rB -> sf_next rB = Some (inl ch, []) ->
+  get_short c ch = Some a -> single_opt c a r -> plain_value a (b :: t) ->
+  react c (Some IShort) SCmdLine a [b :: t] None ps_new = ROk x0 ->
+  parse_top c0 (bin :: tokB :: (b :: t) :: rest) = parse_top c0 (bin :: tokA :: rest).
+Proof. exact short_space_vs_att_top. Qed.
+Print Assumptions C08_short_space_vs_att_line.
+
+Theorem C08_short_eq_vs_att_line : forall c0 bin,
+  is_set s_no_binary_name c0 = false -> is_set s_ignore_errors (build_self (top_cmd c0 bin)) = false ->
+  forall ch a b t rA rC tokA tokC rest,
+  let c := build_self (top_cmd c0 bin) in
+  short_site c ls_top tokA -> short_site c ls_top tokC ->
+  to_short tokA = Some rA -> sf_next rA = Some (inl ch, b :: t) -> b <> 61 ->
+  to_short tokC = Some rC -> sf_next rC = Some (inl ch, 61 :: b :: t) ->
+  get_short c ch = Some a -> a_takes_value a = true -> a_req_eq a = false ->
+  parse_top c0 (bin :: tokC :: rest) = parse_top c0 (bin :: tokA :: rest).
+Proof. exact short_eq_vs_att_top. Qed.
+Print Assumptions C08_short_eq_vs_att_line.
+
+(** clusters: [-a<rest>] = [-a] [-<rest>]; [-abc] = [-a] [-b] [-c]
+    (class: no short flag-subcommands, as in C01's totality theorem) *)
+Theorem C08_cluster_vs_split : forall c ch a r r1 r2 tok tok1 tok2 rest ls st,
+  (forall x, find_short_subcmd c x = None) ->
+  short_site c ls tok -> short_site c ls tok1 -> possible_subcommand c tok2 true = None ->
+  to_short tok = Some r -> sf_next r = Some (inl ch, r2) -> r2 <> [] ->
+  to_short tok1 = Some r1 -> sf_next r1 = Some (inl ch, []) -> to_short tok2 = Some r2 ->
+  get_short c ch = Some a -> a_takes_value a = false -> fs_skip st = 0 ->
+  parse_loop c (tok :: rest) ls st = parse_loop c (tok1 :: tok2 :: rest) ls st.
+Proof. exact cluster_vs_split. Qed.
+Print Assumptions C08_cluster_vs_split.
+
+Theorem C08_cluster_vs_singles : forall c,
+  (forall x, find_short_subcmd c x = None) -> (forall t vaf, possible_subcommand c (45 :: t) vaf = None) ->
+  forall chs ch0 rest ls st,
+  Forall (fun ch => ch < 128 /\ ch <> 45 /\ exists a, get_short c ch = Some a /\ a_takes_value a = false) (ch0 :: chs) ->
+  l_trailing ls = false -> l_pst ls = PSValuesDone -> no_hyphen_pos c (l_pos ls) -> fs_skip st = 0 ->
+  parse_loop c ((45 :: ch0 :: chs) :: rest) ls st =
+  parse_loop c (map (fun ch => [45; ch]) (ch0 :: chs) ++ rest) ls st.
+Proof. exact cluster_vs_singles. Qed.
+Print Assumptions C08_cluster_vs_singles.
+
+Theorem C08_cluster_vs_singles_line : forall c0 bin,
+  is_set s_no_binary_name c0 = false -> is_set s_ignore_errors (build_self (top_cmd c0 bin)) = false ->
+  forall chs ch0 rest,
+  let c := build_self (top_cmd c0 bin) in
+  (forall x, find_short_subcmd c x = None) -> (forall t vaf, possible_subcommand c (45 :: t) vaf = None) ->
+  Forall (fun ch => ch < 128 /\ ch <> 45 /\ exists a, get_short c ch = Some a /\ a_takes_value a = false) (ch0 :: chs) ->
+  no_hyphen_pos c 1 ->
+  parse_top c0 (bin :: (45 :: ch0 :: chs) :: rest) = parse_top c0 (bin :: map (fun ch => [45; ch]) (ch0 :: chs) ++ rest).
+Proof. exact cluster_vs_singles_top. Qed.
+Print Assumptions C08_cluster_vs_singles_line.
+
+(** the decidable sufficient conditions used in the examples are sound *)
+Theorem C08_class_criteria : forall c,
+  (forall i, opt_id_b c i = true -> forall k b, get_pos c k = Some b -> beq i (a_id b) = false) /\
+  (no_dash_names c = true -> forall t vaf, possible_subcommand c (45 :: t) vaf = None) /\
+  (no_short_subs_b c = true -> forall x, find_short_subcmd c x = None).
+Proof. exact (fun c => conj (opt_id_of_b c) (conj (dash_not_sub_of_b c) (no_short_subs_of_b c))). Qed.
+Print Assumptions C08_class_criteria.
+
+(** alias = canonical name, unique prefix = full name (any two spellings the lookup resolves alike) *)
+Theorem C08_long_respell : forall c l1 l2 v a tokA tokB rest ls st,
+  flag_site c ls tokA -> flag_site c ls tokB ->
+  to_long tokA = Some (l1, true, v) -> to_long tokB = Some (l2, true, v) ->
+  (is_nil l1 && negb (is_some v)) = false -> (is_nil l2 && negb (is_some v)) = false ->
+  lookup_long c l1 = Some a -> lookup_long c l2 = Some a ->
+  parse_loop c (tokA :: rest) ls st = parse_loop c (tokB :: rest) ls st.
+Proof. exact long_respell. Qed.
+Print Assumptions C08_long_respell.
+
+Theorem C08_long_alias_vs_name : forall c a l0 l vis v tokA tokB rest ls st,
+  long_unique c -> In a (c_args c) -> a_index a = None ->
+  a_long a = Some l0 -> In (l, vis) (a_aliases a) ->
+  flag_site c ls tokA -> flag_site c ls tokB ->
+  to_long tokA = Some (l, true, v) -> to_long tokB = Some (l0, true, v) ->
+  (is_nil l && negb (is_some v)) = false -> (is_nil l0 && negb (is_some v)) = false ->
+  parse_loop c (tokA :: rest) ls st = parse_loop c (tokB :: rest) ls st.
+Proof. exact long_alias_vs_name. Qed.
+Print Assumptions C08_long_alias_vs_name.
+
+Theorem C08_long_prefix_vs_name : forall c a p l0 v tokA tokB rest ls st,
+  lookup_long c p = Some a -> get_long c l0 = Some a ->
+  flag_site c ls tokA -> flag_site c ls tokB ->
+  to_long tokA = Some (p, true, v) -> to_long tokB = Some (l0, true, v) ->
+  (is_nil p && negb (is_some v)) = false -> (is_nil l0 && negb (is_some v)) = false ->
+  parse_loop c (tokA :: rest) ls st = parse_loop c (tokB :: rest) ls st.
+Proof. exact long_prefix_vs_name. Qed.
+Print Assumptions C08_long_prefix_vs_name.
+
+Theorem C08_short_respell : forall c ch1 ch2 a r1 r2 r' tokA tokB rest ls st,
+  (forall x, find_short_subcmd c x = None) ->
+  short_site c ls tokA -> short_site c ls tokB ->
+  to_short tokA = Some r1 -> sf_next r1 = Some (inl ch1, r') ->
+  to_short tokB = Some r2 -> sf_next r2 = Some (inl ch2, r') ->
+  get_short c ch1 = Some a -> get_short c ch2 = Some a -> fs_skip st = 0 ->
+  parse_loop c (tokA :: rest) ls st = parse_loop c (tokB :: rest) ls st.
+Proof. exact short_respell. Qed.
+Print Assumptions C08_short_respell.
+
+Theorem C08_long_respell_line : forall c0 bin,
+  is_set s_no_binary_name c0 = false -> is_set s_ignore_errors (build_self (top_cmd c0 bin)) = false ->
+  forall l1 l2 v a tokA tokB rest,
+  let c := build_self (top_cmd c0 bin) in
+  flag_site c ls_top tokA -> flag_site c ls_top tokB ->
+  to_long tokA = Some (l1, true, v) -> to_long tokB = Some (l2, true, v) ->
+  (is_nil l1 && negb (is_some v)) = false -> (is_nil l2 && negb (is_some v)) = false ->
+  lookup_long c l1 = Some a -> lookup_long c l2 = Some a ->
+  parse_top c0 (bin :: tokA :: rest) = parse_top c0 (bin :: tokB :: rest).
+Proof. exact long_respell_top. Qed.
+Print Assumptions C08_long_respell_line.
+
+Theorem C08_short_respell_line : forall c0 bin,
+  is_set s_no_binary_name c0 = false -> is_set s_ignore_errors (build_self (top_cmd c0 bin)) = false ->
+  forall ch1 ch2 a r1 r2 r' tokA tokB rest,
+  let c := build_self (top_cmd c0 bin) in
+  (forall x, find_short_subcmd c x = None) -> short_site c ls_top tokA -> short_site c ls_top tokB ->
+  to_short tokA = Some r1 -> sf_next r1 = Some (inl ch1, r') ->
+  to_short tokB = Some r2 -> sf_next r2 = Some (inl ch2, r') ->
+  get_short c ch1 = Some a -> get_short c ch2 = Some a ->
+  parse_top c0 (bin :: tokA :: rest) = parse_top c0 (bin :: tokB :: rest).
+Proof. exact short_respell_top. Qed.
+Print Assumptions C08_short_respell_line.
 
 (** observation: the success hypothesis is needed (different error kinds for a rejected value) *)
 Theorem C08_spelling_needs_success_witness : exists c0 tokA tokB v rest,
